@@ -162,6 +162,7 @@ impl FixedTransaction {
         let body = deserialize_exact::<TransactionBody>(raw_body, "raw_body")?;
         self.body = body;
         self.body_bytes = raw_body.to_vec();
+        self.tx_hash = TransactionHash::from(blake2b256(raw_body));
         Ok(())
     }
 
